@@ -81,3 +81,324 @@ Theorem C12_cleaner_timer_goroutines_finish : forall cd n d pre,
 Proof. exact Proofs.CleanerProto.terminates. Qed.
 Print Assumptions C12_cleaner_timer_goroutines_finish.
 End GoroutineExit.
+
+(* ================================================================================================================
+   Extensions (proofs in Proofs/BufferMore.v): closed consumers, and Commit/Rollback on a closed buffer.
+   [Proofs.BufferMore.grun] = schedules with arbitrary cleaner runs (see Properties/C01.v, C01_generalised_event);
+   [Proofs.BufferMore.Inv2] = the invariant of Proofs/Buffer.v plus, per consumer: the order of its read history, a Close
+   in progress implies its context is cancelled, Done closed implies nothing uncommitted, deregistered implies Done closed
+   (spelled out in C12_strong_invariant_reachable, which also shows that it holds in every reachable state).
+   ================================================================================================================ *)
+From BB.Proofs Require BufferMore.
+
+Section ConsumerClauses.
+Import BB.Model.Buffer.
+
+Theorem C12_strong_invariant_reachable : forall k0 gs,
+  let s := fst (Proofs.BufferMore.grun (init k0) gs) in
+  Proofs.BufferMore.Inv2 s /\
+  (Proofs.BufferMore.Inv2 s <->
+   Proofs.Buffer.Inv s /\
+   Forall (fun k =>
+     chigh k = fold_right Nat.max (cstart k) (map S (chist k)) /\
+     Proofs.BufferMore.ordered (cstart k) (chist k) /\
+     (conce k = true -> ccancel k = true) /\
+     (cdone k = true -> cdelta k = 0) /\
+     (creg k = false -> cdone k = true)) (cs s)).
+Proof. exact Proofs.BufferMore.Inv2_reachable_def. Qed.
+Print Assumptions C12_strong_invariant_reachable.
+
+(* A consumer whose context is cancelled — its own Close has begun (even if that Close is still waiting for uncommitted
+   reads), or the buffer was closed — while the BUFFER MAY STILL BE OPEN: Get returns an error at once (it never parks)
+   and changes nothing; and it stays that way under every later schedule. *)
+Theorem C12_cancelled_consumer_get_fails_forever : forall gs s c k,
+  Proofs.Buffer.Inv s -> getc s c = Some k -> ccancel k = true ->
+  let s' := fst (Proofs.BufferMore.grun s gs) in step s' (OGet c) = (s', RErr).
+Proof. exact Proofs.BufferMore.cancelled_consumer_get_fails_forever. Qed.
+Print Assumptions C12_cancelled_consumer_get_fails_forever.
+
+(* cancelled / Close begun / Done closed are never reset, under any schedule *)
+Theorem C12_consumer_closedness_permanent : forall gs s c k,
+  Proofs.Buffer.Inv s -> getc s c = Some k ->
+  exists k', getc (fst (Proofs.BufferMore.grun s gs)) c = Some k' /\
+    (ccancel k = true -> ccancel k' = true) /\ (conce k = true -> conce k' = true) /\ (cdone k = true -> cdone k' = true).
+Proof. exact Proofs.BufferMore.consumer_closedness_permanent. Qed.
+Print Assumptions C12_consumer_closedness_permanent.
+
+(* A consumer whose Close has completed (Done closed), whether or not the buffer is open: it is cancelled, deregistered
+   and has nothing uncommitted; and in every later state of every schedule
+     Get -> error, Commit -> error (nothing to commit), Rollback -> error (nothing to roll back), Diff -> (0, false),
+     a second Close -> error, Done -> closed;  none of them parks or changes anything. *)
+Theorem C12_closed_consumer_calls_fail_forever : forall gs s c k,
+  Proofs.BufferMore.Inv2 s -> getc s c = Some k -> cdone k = true ->
+  let s' := fst (Proofs.BufferMore.grun s gs) in
+  step s' (OGet c) = (s', RErr) /\ step s' (OCommit c) = (s', RErr) /\ step s' (ORollback c) = (s', RErr) /\
+  step s' (ODiff c) = (s', RDiff 0 false) /\ step s' (OCloseC c) = (s', RErr) /\ step s' (ODoneC c) = (s', RBool true).
+Proof. exact Proofs.BufferMore.closed_consumer_calls_forever. Qed.
+Print Assumptions C12_closed_consumer_calls_fail_forever.
+
+Theorem C12_closed_consumer_state : forall s c k,
+  Proofs.BufferMore.Inv2 s -> getc s c = Some k -> cdone k = true ->
+  (ccancel k = true /\ creg k = false /\ cdelta k = 0) /\
+  step s (OGet c) = (s, RErr) /\ step s (OCommit c) = (s, RErr) /\ step s (ORollback c) = (s, RErr) /\
+  step s (ODiff c) = (s, RDiff 0 false) /\ step s (OCloseC c) = (s, RErr) /\ step s (ODoneC c) = (s, RBool true).
+Proof. exact Proofs.BufferMore.closed_consumer_calls. Qed.
+Print Assumptions C12_closed_consumer_state.
+
+(* Buffer.Close cancels every consumer at once — also those whose own Close must wait for uncommitted reads — so (by
+   C12_cancelled_consumer_get_fails_forever) every later Get on any of them fails *)
+Theorem C12_buffer_close_cancels_all : forall s,
+  bonce s = false -> Forall (fun k => ccancel k = true) (cs (fst (step s OCloseB))).
+Proof. exact Proofs.BufferMore.buffer_close_cancels_all. Qed.
+Print Assumptions C12_buffer_close_cancels_all.
+
+(* Commit on a closed buffer, the case C12_after_close_calls_fail does not cover: with reads PENDING (cdelta > 0), Commit
+   and Rollback SUCCEED — on a closed buffer, on a cancelled consumer, during a blocked Close alike; the consumer is
+   necessarily still registered and its Done open.  (consumer.go Commit/Rollback and buffer.go commit check no context,
+   only that something is pending and that the consumer is registered; this is the exception the property makes with
+   "provided no reads are left uncommitted".)  It is what lets a blocked Close finish: *)
+Theorem C12_pending_commit_rollback_succeed : forall s c k,
+  Proofs.BufferMore.Inv2 s -> getc s c = Some k -> cdelta k <> 0 ->
+  (creg k = true /\ cdone k = false) /\
+  step s (OCommit c) = (set_cs s (upd (cs s) c (c_commit k)) true, ROk) /\
+  step s (ORollback c) = (set_cs s (upd (cs s) c (c_rollback k)) (dirty s), ROk).
+Proof. exact Proofs.BufferMore.pending_commit_rollback_succeed. Qed.
+Print Assumptions C12_pending_commit_rollback_succeed.
+
+(* ... if a Close of that consumer is in progress, the shutdown step after the Commit or Rollback completes it *)
+Theorem C12_pending_commit_rollback_release_close : forall s c k,
+  Proofs.BufferMore.Inv2 s -> getc s c = Some k -> cdelta k <> 0 -> conce k = true ->
+  (exists k', getc (settle (fst (step s (OCommit c)))) c = Some k' /\ creg k' = false /\ cdone k' = true) /\
+  (exists k', getc (settle (fst (step s (ORollback c)))) c = Some k' /\ creg k' = false /\ cdone k' = true).
+Proof. exact Proofs.BufferMore.pending_commit_rollback_release_close. Qed.
+Print Assumptions C12_pending_commit_rollback_release_close.
+
+(* the buffer stays closed whatever cleaners are scheduled *)
+Theorem C12_closed_stays_closed_any_cleaners : forall gs s,
+  bclosed s = true -> bclosed (fst (Proofs.BufferMore.grun s gs)) = true.
+Proof. exact Proofs.BufferMore.closed_stays_closed_g. Qed.
+Print Assumptions C12_closed_stays_closed_any_cleaners.
+End ConsumerClauses.
+
+(* C12 — Close/cancel completes, fails later calls cleanly, leaves no goroutine behind: the clauses about the Channel
+   consumer (channel.go).  Statements only, every proof is
+   `exact` of a lemma of Proofs/ChannelMore.v.
+
+   Clause of the property statement (for a Channel)                  -> theorems below
+   -------------------------------------------------------------------------------------------------------------
+   "Closing a Channel explicitly ... terminates"                     -> Close is ONE total step of the model (it takes the
+                                                                        Once and the mutex and waits for nothing else):
+                                                                        C12_channel_close_first_ok
+   "... or by cancelling the context it was built on"                -> C12_channel_cancel_closes (atomic view),
+                                                                        C12_channel_split_* (cancellation and the watcher
+                                                                        goroutine's Close as separate events)
+   "closes its Done channel"                                         -> C12_channel_close_first_ok, C12_channel_cancel_closes,
+                                                                        C12_channel_split_watcher_closes_done,
+                                                                        C12_channel_split_quiescent_means_done
+   "makes later Get and Commit return an error"                      -> C12_channel_frozen_after_closed,
+                                                                        C12_channel_nothing_taken_after_done,
+                                                                        C12_channel_split_frozen_after_cancel
+   "makes a second Close return an error"                            -> C12_channel_close_first_ok, C12_channel_close_again_fails,
+                                                                        C12_channel_closes_fail_after_done,
+                                                                        C12_channel_split_close_ok_at_most_once
+   permanence ("every order ... including closes racing with
+   in-flight operations")                                            -> C12_channel_closed_permanent, C12_channel_done_permanent,
+                                                                        C12_channel_split_closed_permanent,
+                                                                        C12_channel_split_done_permanent
+   "no goroutine started by the library is still running"            -> the watcher: C12_channel_split_watcher_closes_done,
+                                                                        C12_channel_split_quiescent_means_done
+
+   `done_closed s` (Model/ChannelThreads.v) is "Done() is closed" = the sync.Once has fired (close(c.done) runs inside
+   c.close.Do under the mutex); `closed s` is "c.ctx.Err() != nil". *)
+From BB.Model Require ChannelThreads.
+From BB.Proofs Require ChannelMore.
+
+Section ChannelCloseClauses.
+Import BB.Model.Channel.
+Import BB.Model.ChannelThreads.
+
+(* Explicit Close, first call: returns nil, cancels the context, closes Done, leaves source, buffer, rollback counter
+   and all values untouched; a second Close returns an error and changes nothing. *)
+Theorem C12_channel_close_first_ok : forall s,
+  once s = false ->
+  let s1 := fst (step s OClose) in
+  snd (step s OClose) = ROk /\ closed s1 = true /\ done_closed s1 = true /\
+  (src s1 = src s /\ src_closed s1 = src_closed s /\ buf s1 = buf s /\ rb s1 = rb s /\
+   committed s1 = committed s /\ taken s1 = taken s /\ sent s1 = sent s) /\
+  step s1 OClose = (s1, RErr).
+Proof. exact Proofs.ChannelMore.close_first_ok. Qed.
+Print Assumptions C12_channel_close_first_ok.
+
+(* Whenever Done is closed, Close returns an error and changes nothing. *)
+Theorem C12_channel_close_again_fails : forall s, done_closed s = true -> step s OClose = (s, RErr).
+Proof. exact Proofs.ChannelMore.close_again_fails. Qed.
+Print Assumptions C12_channel_close_again_fails.
+
+(* Closing by cancelling the context the Channel was built on (atomic view, i.e. observed after Done): context
+   cancelled, Done closed, data untouched, an explicit Close afterwards returns an error. *)
+Theorem C12_channel_cancel_closes : forall s,
+  let s1 := fst (step s OCancel) in
+  snd (step s OCancel) = ROk /\ closed s1 = true /\ done_closed s1 = true /\
+  (src s1 = src s /\ src_closed s1 = src_closed s /\ buf s1 = buf s /\ rb s1 = rb s /\
+   committed s1 = committed s /\ taken s1 = taken s /\ sent s1 = sent s) /\
+  step s1 OClose = (s1, RErr).
+Proof. exact Proofs.ChannelMore.cancel_closes. Qed.
+Print Assumptions C12_channel_cancel_closes.
+
+(* Closedness is permanent under every later operation sequence: the context stays cancelled ... *)
+Theorem C12_channel_closed_permanent : forall (ops : list op) (s : st),
+  closed s = true -> closed (fst (run s ops)) = true.
+Proof. exact Proofs.ChannelMore.closed_permanent. Qed.
+Print Assumptions C12_channel_closed_permanent.
+
+(* ... and Done stays closed. *)
+Theorem C12_channel_done_permanent : forall (ops : list op) (s : st),
+  done_closed s = true -> done_closed (fst (run s ops)) = true.
+Proof. exact Proofs.ChannelMore.done_permanent. Qed.
+Print Assumptions C12_channel_done_permanent.
+
+(* "makes later Get and Commit return an error", for EVERY later schedule (this is C12_channel_after_close quantified
+   over all continuations): from a closed state, whatever operations follow, every Get and every Commit returns an
+   error, nothing more is taken from the source, buffer and committed values are frozen, the source only grows by its
+   owner's sends. *)
+Theorem C12_channel_frozen_after_closed : forall (ops : list op) (s : st),
+  closed s = true ->
+  let s' := fst (run s ops) in
+  closed s' = true /\ taken s' = taken s /\ buf s' = buf s /\ committed s' = committed s /\
+  (exists extra, src s' = src s ++ extra /\ sent s' = sent s ++ extra) /\
+  Forall2 (fun o r => o = OGet \/ o = OCommit -> r = RErr) ops (snd (run s ops)).
+Proof. exact Proofs.ChannelMore.frozen_after_closed. Qed.
+Print Assumptions C12_channel_frozen_after_closed.
+
+(* "makes a second Close return an error", every later schedule: once Done is closed every Close returns an error. *)
+Theorem C12_channel_closes_fail_after_done : forall (ops : list op) (s : st),
+  done_closed s = true ->
+  Forall2 (fun o r => o = OClose -> r = RErr) ops (snd (run s ops)).
+Proof. exact Proofs.ChannelMore.closes_fail_after_done. Qed.
+Print Assumptions C12_channel_closes_fail_after_done.
+
+(* In the atomic model Done is closed exactly when the context is cancelled, in every reachable state. *)
+Theorem C12_channel_done_iff_cancelled : forall ops : list op,
+  done_closed (fst (run init ops)) = closed (fst (run init ops)).
+Proof. exact Proofs.ChannelMore.done_iff_closed. Qed.
+Print Assumptions C12_channel_done_iff_cancelled.
+
+(* From the initial state: as soon as a prefix of any history leaves Done closed, in every continuation Done and the
+   context stay closed, nothing more is taken, and every later Get, Commit and Close returns an error. *)
+Theorem C12_channel_nothing_taken_after_done : forall pre post : list op,
+  done_closed (fst (run init pre)) = true ->
+  let s := fst (run init pre) in
+  let s' := fst (run init (pre ++ post)) in
+  done_closed s' = true /\ closed s' = true /\ taken s' = taken s /\ buf s' = buf s /\ committed s' = committed s /\
+  (exists extra, src s' = src s ++ extra /\ sent s' = sent s ++ extra) /\
+  Forall2 (fun o r => o = OGet \/ o = OCommit \/ o = OClose -> r = RErr) post (snd (run s post)).
+Proof. exact Proofs.ChannelMore.nothing_taken_after_done. Qed.
+Print Assumptions C12_channel_nothing_taken_after_done.
+
+(* ---- cancellation as two events: XCtxCancel (c.ctx.Err() becomes non-nil), XWatcherClose (the watcher goroutine,
+        released by c.ctx.Done(), calls Close) ---- *)
+
+(* The window between the two events (context cancelled, Once not fired): Done is still open, Get and Commit already
+   fail and change nothing, an explicit Close returns NIL and closes Done (the atomic model answers "already closed"),
+   and the Close after it (the watcher's, or anyone's) changes nothing. *)
+Theorem C12_channel_split_window_behaviour : forall s,
+  in_window s = true ->
+  done_closed s = false /\
+  step s OGet = (s, RErr) /\ step s OCommit = (s, RErr) /\
+  snd (step s OClose) = ROk /\ done_closed (fst (step s OClose)) = true /\
+  snd (step (Proofs.ChannelMore.atomic_view s) OClose) = RErr /\
+  fst (step (fst (step s OClose)) OClose) = fst (step s OClose).
+Proof. exact Proofs.ChannelMore.window_behaviour. Qed.
+Print Assumptions C12_channel_split_window_behaviour.
+
+(* One step of the split machine against the atomic model (XCtxCancel read as OCancel, the watcher's Close invisible):
+   same next state up to the view "Done closed as soon as the context is cancelled", same result, with exactly ONE
+   exception: an explicit Close in the window. *)
+Theorem C12_channel_split_step_vs_atomic : forall x xo,
+  (once (base x) = true -> closed (base x) = true) ->
+  match collapse1 xo with
+  | [o] => fst (step (Proofs.ChannelMore.atomic_view (base x)) o)
+             = Proofs.ChannelMore.atomic_view (base (fst (xstep x xo))) /\
+           (snd (xstep x xo) = snd (step (Proofs.ChannelMore.atomic_view (base x)) o) \/
+            (xo = XOp OClose /\ in_window (base x) = true /\
+             snd (xstep x xo) = ROk /\ snd (step (Proofs.ChannelMore.atomic_view (base x)) o) = RErr))
+  | _ => Proofs.ChannelMore.atomic_view (base (fst (xstep x xo))) = Proofs.ChannelMore.atomic_view (base x)
+  end.
+Proof. exact Proofs.ChannelMore.xstep_vs_atomic. Qed.
+Print Assumptions C12_channel_split_step_vs_atomic.
+
+(* ... and for whole schedules, every interleaving of the two events with all other operations. *)
+Theorem C12_channel_split_agrees_with_atomic : forall xops : list xop,
+  fst (run init (collapse xops)) = Proofs.ChannelMore.atomic_view (base (fst (xrun xinit xops))) /\
+  Proofs.ChannelMore.agree (collapse xops) (visible xops (snd (xrun xinit xops))) (snd (run init (collapse xops))).
+Proof. exact Proofs.ChannelMore.split_vs_atomic_init. Qed.
+Print Assumptions C12_channel_split_agrees_with_atomic.
+
+(* Cancelling and then letting the watcher run, with nothing in between, is exactly the atomic OCancel (this is what the
+   harness does: cancel, then wait for Done). *)
+Theorem C12_channel_split_cancel_then_watcher_is_atomic_cancel : forall x,
+  wdone x = false ->
+  base (fst (xrun x [XCtxCancel; XWatcherClose])) = fst (step (base x) OCancel) /\
+  wdone (fst (xrun x [XCtxCancel; XWatcherClose])) = true.
+Proof. exact Proofs.ChannelMore.cancel_then_watcher_is_OCancel. Qed.
+Print Assumptions C12_channel_split_cancel_then_watcher_is_atomic_cancel.
+
+(* permanence in the split machine, every interleaving *)
+Theorem C12_channel_split_closed_permanent : forall (xops : list xop) (x : xst),
+  closed (base x) = true -> closed (base (fst (xrun x xops))) = true.
+Proof. exact Proofs.ChannelMore.x_closed_permanent. Qed.
+Print Assumptions C12_channel_split_closed_permanent.
+
+Theorem C12_channel_split_done_permanent : forall (xops : list xop) (x : xst),
+  done_closed (base x) = true -> done_closed (base (fst (xrun x xops))) = true.
+Proof. exact Proofs.ChannelMore.x_done_permanent. Qed.
+Print Assumptions C12_channel_split_done_permanent.
+
+(* "makes later Get and Commit return an error": from the moment the context is cancelled, Done open or not, under
+   every later interleaving. *)
+Theorem C12_channel_split_frozen_after_cancel : forall (xops : list xop) (x : xst),
+  closed (base x) = true ->
+  let s := base x in
+  let s' := base (fst (xrun x xops)) in
+  closed s' = true /\ taken s' = taken s /\ buf s' = buf s /\ committed s' = committed s /\
+  (exists extra, src s' = src s ++ extra /\ sent s' = sent s ++ extra) /\
+  Forall2 (fun xo r => xo = XOp OGet \/ xo = XOp OCommit -> r = RErr) xops (snd (xrun x xops)).
+Proof. exact Proofs.ChannelMore.x_frozen_after_cancel. Qed.
+Print Assumptions C12_channel_split_frozen_after_cancel.
+
+(* "makes a second Close return an error": in every interleaving, from every state, at most ONE explicit Close returns
+   nil, and none does once Done is closed (by an earlier Close or by the watcher). *)
+Theorem C12_channel_split_close_ok_at_most_once : forall (xops : list xop) (x : xst),
+  Proofs.ChannelMore.close_oks xops (snd (xrun x xops)) <= (if done_closed (base x) then 0 else 1).
+Proof. exact Proofs.ChannelMore.x_close_ok_at_most_once. Qed.
+Print Assumptions C12_channel_split_close_ok_at_most_once.
+
+(* "closes its Done channel" / the watcher goroutine exits: once the context is cancelled (by the parent or by an
+   explicit Close) and the watcher has not run, its step is enabled; it closes Done if still open, changes no data, and
+   the watcher is finished and can never move again. *)
+Theorem C12_channel_split_watcher_closes_done : forall x,
+  closed (base x) = true -> wdone x = false ->
+  let x1 := fst (xstep x XWatcherClose) in
+  watcher_enabled x = true /\ wdone x1 = true /\ done_closed (base x1) = true /\ closed (base x1) = true /\
+  (src (base x1) = src (base x) /\ buf (base x1) = buf (base x) /\ rb (base x1) = rb (base x) /\
+   committed (base x1) = committed (base x) /\ taken (base x1) = taken (base x) /\ sent (base x1) = sent (base x)) /\
+  watcher_enabled x1 = false.
+Proof. exact Proofs.ChannelMore.x_watcher_closes_done. Qed.
+Print Assumptions C12_channel_split_watcher_closes_done.
+
+(* In every reachable state in which the context is cancelled and the watcher cannot move, the watcher has finished
+   and Done is closed: no goroutine of the Channel is left. *)
+Theorem C12_channel_split_quiescent_means_done : forall xops : list xop,
+  let x := fst (xrun xinit xops) in
+  closed (base x) = true -> watcher_enabled x = false ->
+  wdone x = true /\ done_closed (base x) = true.
+Proof. exact Proofs.ChannelMore.x_quiescent_closed_means_done_init. Qed.
+Print Assumptions C12_channel_split_quiescent_means_done.
+
+(* Done is closed only after the context is cancelled, in every reachable state of the split machine. *)
+Theorem C12_channel_split_done_implies_cancelled : forall xops : list xop,
+  done_closed (base (fst (xrun xinit xops))) = true -> closed (base (fst (xrun xinit xops))) = true.
+Proof. exact Proofs.ChannelMore.x_done_implies_cancelled. Qed.
+Print Assumptions C12_channel_split_done_implies_cancelled.
+
+End ChannelCloseClauses.
